@@ -38,12 +38,23 @@ def run_history(out, solver, hist, d, nx, nrho, nsc, reuse):
     info = dict(kind='history', hist=hist, d=d, nx=nx, nrho=nrho, nsc=nsc)
     key = 'history:' + '-'.join(hist)
     nE = sum(1 for o in hist if o in ('E', 'E0')) + 1
-    scripts = [{'cb': [(0, 0), (1, 1), (2, 0)]}, {'cb': [(0, 1), (2, 1)]}, {'cb': [(0, 0), (1, 0), (1, 1)]}, {'cb': [(0, 1)]}, {'cb': [(0, 0), (2, 1)]}] * 2
+    scripts = [{'cb': [(0, 0), (1, 1), (2, 0)]}, {'cb': [(0, 1), (2, 1)]}, {'cb': [(0, 0), (1, 0), (1, 1)]}, {'cb': [(0, 1)]}, {'cb': [(1, 0), (0, 1)]}, {'cb': [(0, 0), (2, 1)]}] * 2
     s = Session(scripts, solver=solver)
     s.st.reuse_freed = reuse
     cur = 0
     ti = T.var('ti')
     cfg = (nx, d, nrho, nsc)
+    def differs(a_, b_, label):
+        """solver verdict on a_ != b_ over all values of the symbolic times (identical terms are not sent)"""
+        if a_ is b_:
+            return False
+        conv = S.Conv('real')
+        za = conv.conv(a_) if isinstance(a_, Term) else conv.rconst(a_)
+        zb = conv.conv(b_) if isinstance(b_, Term) else conv.rconst(b_)
+        r = solver.check([], conv=conv, extra=[za != zb], label=label)
+        if r == 'unknown':
+            out['undecided'].append(label)
+        return r != 'unsat'
     try:
         s.ok('h_sys_ctor', [s.obj[0], nx, d, nrho, nsc, ti])
         s.write_state(0, *cfg[:1], cfg[1], cfg[2], cfg[3])
@@ -69,7 +80,7 @@ def run_history(out, solver, hist, d, nx, nrho, nsc, reuse):
                 log = s.log_since(mark)
                 texp = T.fadd(texp, dt)
                 tnow = s.ok('h_sys_get_t', [obj])
-                if not (ctx.poly(tnow) - ctx.poly(texp)).is_zero():
+                if differs(tnow, texp, 'Get_t() = t_ini + sum of the %d segment lengths (all symbolic), %s stepping' % (ndt, 'adaptive' if adaptive else 'fixed')):
                     dec.candidate(key + ':clock', 'Get_t() is %s but t_ini + sum of dt is %s at %s' % (T.show(tnow, 4), T.show(texp, 4), where), **info)
                     return s
                 rhs = [e for e in log if e[0] == 'rhs']
@@ -79,7 +90,7 @@ def run_history(out, solver, hist, d, nx, nrho, nsc, reuse):
                     if rhs or any(a is not b for a, b in zip(before, after)):
                         dec.candidate(key + ':nonumerics', 'with all numerical terms disabled Evolve changed the stored state or integrated, at %s' % where, **info)
                         return s
-                    if len(pres) != 1 or not (ctx.poly(pres[0][2]) - ctx.poly(texp)).is_zero() or pres[0][1] != obj:
+                    if len(pres) != 1 or pres[0][1] != obj or differs(pres[0][2], texp, 'PreDerive time = t_ini + sum dt with all terms off'):
                         dec.candidate(key + ':prederive', 'with all numerical terms disabled PreDerive is not invoked exactly once with the new time on the evolving object, at %s' % where, **info)
                         return s
                 else:
